@@ -142,10 +142,10 @@ def segy_source(draw, geom="regular", max_dim=12, max_ns=40, fields=True, allow_
 
 
 def text_header(seed):
+    """3200 ASCII characters (segyio stores them as EBCDIC): letters, digits, space and . - : , on which
+    segyio's EBCDIC table and cp037 agree."""
     rng = np.random.Generator(np.random.PCG64(seed))
-    # printable EBCDIC code points on which segyio's table and cp037 agree (letters, digits, space, a few signs)
-    alphabet = np.frombuffer(bytes(list(range(0xC1, 0xCA)) + list(range(0xD1, 0xDA)) + list(range(0xE2, 0xEA)) +
-                                   list(range(0xF0, 0xFA)) + [0x40, 0x4B, 0x60, 0x7A]), dtype=np.uint8)
+    alphabet = np.frombuffer(b"ABCDEFGHIJKLMNOPQRSTUVWXYZabcdefghijklmnopqrstuvwxyz0123456789 .-:", dtype=np.uint8)
     return bytes(rng.choice(alphabet, 3200).astype(np.uint8))
 
 
